@@ -118,7 +118,7 @@ func VerifC03_a6_login_cookies() {
 		}
 		return s != ""
 	}
-	res := &svc.LoginResult{Session: nondetString("session", 1), User: nondetStringUpTo("user", 1)}
+	res := &svc.LoginResult{Session: nondetString("session", 1), User: nondetStringUpTo("user", deep(1))}
 	verifAssume(alnum(res.Session))
 	if nondetBool("csrf-set") {
 		c := nondetString("csrf", 1)
